@@ -93,7 +93,7 @@ extern "C" void harness() {
   }
   __verif_cover("end");
 }
-#else
+#elif defined(H16S)
 // H16S: spreadCoordX keeps every cell inside its bin (float kernel; linear error model, tolerance 2^-18 of the magnitude)
 extern "C" void harness() {
   DensityGrid g(8, Rectangle(0, 16, 0, 8));
@@ -112,6 +112,54 @@ extern "C" void harness() {
     float lo = h.binLimitX(bx), hi = h.binLimitX(bx + 1);
     VASSERT(xs[c] >= lo - 0.001f && xs[c] <= hi + 0.001f, "the spread coordinate of a cell lies inside its bin (up to float rounding)");
   }
+  __verif_cover("end");
+}
+#endif
+#if defined(H16C)
+// rough-legalization passes (DensityLegalizer::run / refine / improve) with every float value unconstrained: whatever the
+// costs are, every cell of non-zero area stays in exactly one bin and the class's own invariants hold.
+static void invariantL(const DensityLegalizer& h, const std::vector<int>& dem) {
+  h.check();
+  int n = (int)dem.size();
+  for (int c = 0; c < n; ++c) {
+    int cnt = 0;
+    for (int i = 0; i < h.nbBinsX(); ++i) for (int j = 0; j < h.nbBinsY(); ++j) {
+      const std::vector<int>& bc = h.binCells(i, j);
+      for (size_t k = 0; k < bc.size(); ++k) if (bc[k] == c) { ++cnt; VASSERT(h.cellBinX(c) == i && h.cellBinY(c) == j, "cell-to-bin map consistent with the bin contents"); }
+    }
+    VASSERT(cnt == (dem[c] > 0 ? 1 : 0), "a cell of non-zero area is in exactly one bin, a zero-area cell in none");
+  }
+}
+extern "C" void harness() {
+  // 6 x 2 bins of 5 x 5; the middle 2 x 2 block has no capacity (hole in the rows)
+  std::vector<Rectangle> regs; regs.push_back(Rectangle(0, 10, 0, 10)); regs.push_back(Rectangle(20, 30, 0, 10));
+  DensityGrid g(5, regs);
+  VASSERT(g.nbBinsX() == 6 && g.nbBinsY() == 2 && g.binCapacity(2, 0) == 0 && g.binCapacity(3, 1) == 0, "grid with a zero-capacity block");
+  const int NCELL = 3;
+  std::vector<int> dem;
+  for (int c = 0; c < NCELL; ++c) { int d = (c == NCELL - 1) ? __verif_nondet_int(0, 30) : __verif_nondet_int(1, 30); dem.push_back(d); }
+  DensityLegalizer::Parameters prm;
+  int pset = __verif_choice(3);
+  if (pset >= 1) { prm.squareReoptSize = 2; prm.squareReoptOverlap = 1; prm.lineReoptSize = 3; prm.lineReoptOverlap = 1; prm.diagReoptSize = 3; prm.diagReoptOverlap = 1; }
+  if (pset == 2) prm.unidimensionalTransport = false;
+  DensityLegalizer leg(g, dem, prm);
+  std::vector<float> tx, ty;
+  for (int c = 0; c < NCELL; ++c) { float a = __verif_nondet_float(-100.0f, 100.0f); float b = __verif_nondet_float(-100.0f, 100.0f); tx.push_back(a); ty.push_back(b); }
+  leg.updateCellTargetX(tx); leg.updateCellTargetY(ty);
+  invariantL(leg, dem);
+  __verif_cover("built");
+  __verif_havoc_int_range(0, 1 << 27);   // fixed-point costs and scaled positions are non-negative and bounded by construction
+  int scen = __verif_choice(2);
+  if (scen == 0) { leg.run(); invariantL(leg, dem); }
+  else {
+    // refine step by step, improving at every level (what runRefinement does), checking after each step
+    while (leg.levelX() > 0 || leg.levelY() > 0) {
+      leg.refine(); invariantL(leg, dem);
+      leg.improve(); invariantL(leg, dem);
+    }
+    leg.improve(); invariantL(leg, dem);
+  }
+  VASSERT(leg.levelX() == 0 && leg.levelY() == 0, "the legalizer ends at the finest level");
   __verif_cover("end");
 }
 #endif
